@@ -83,6 +83,9 @@ func (wk *Worker) runPath(h *harnessRun, prefix []int, model map[string]uint64) 
 		wk.prevTaken = append([]int(nil), p.taken...)
 		if r := recover(); r != nil {
 			if pe, ok := r.(pathEnd); ok {
+				if pe.kind == endUnsupported && !strings.Contains(pe.msg, " at ") {
+					pe.msg += " at " + p.where()
+				}
 				res.end = pe
 			} else {
 				st := string(debug.Stack())
@@ -191,6 +194,8 @@ func (h *harnessRun) record(p *Path, res pathResult) {
 	}
 }
 
+var progress = os.Getenv("GOSYM_PROGRESS") != ""
+
 // explore runs all paths of a harness with nworkers workers.
 func explore(w *World, h *harnessRun, workers []*Worker, maxPaths int, deadline time.Time) {
 	start := time.Now()
@@ -242,6 +247,9 @@ func explore(w *World, h *harnessRun, workers []*Worker, maxPaths int, deadline 
 				h.mu.Lock()
 				np := h.paths
 				h.mu.Unlock()
+				if progress && np%200 == 0 {
+					fmt.Fprintf(os.Stderr, "[progress] %s paths=%d pending=%d ends=%v %.0fs\n", h.name, np, len(work), h.ends, time.Since(start).Seconds())
+				}
 				if np >= maxPaths || time.Now().After(deadline) {
 					if (len(work) > 0 || active > 0) && !stopped {
 						h.mu.Lock()
